@@ -15,9 +15,13 @@ mod check;
 mod discard;
 mod info;
 mod read;
+#[cfg(feature = "verif-hooks")]
+mod verif;
 mod write;
 use self::alloc::HostCluster;
 pub use self::info::{Qcow2DevParams, Qcow2Info};
+#[cfg(feature = "verif-hooks")]
+pub use self::verif::VerifHostSplit;
 
 type L2TableHandle = AsyncRwLock<L2Table>;
 
